@@ -5,7 +5,7 @@ import ast
 from typing import Dict, List, Optional, Set, Tuple
 
 from .. import cfg as cfgmod
-from ..astutil import call_name, const_int, is_attr_of
+from ..astutil import alias_map, call_name, const_int, expand_alias, is_attr_of
 from ..index import AnalysisError, AnchorVanished, norm, short, walk_local
 from ..linear import eq as lin_eq, lin, show
 
@@ -405,13 +405,128 @@ def r10_4(ctx):
         var = norm(hook_assign.stmt.targets[0])
         ok_arg = norm(hook_assign.stmt.value.args[0]) == var if hook_assign.stmt.value.args else False
         # render loops: `for renderable in <var>` after the hook loop must see the hook assignment as a reaching def
-        loops = [n for n in g.stmt_nodes() if n.kind == "for" and norm(n.stmt.iter) == var and n.stmt is not f.module.parent_of.get(hook_assign.stmt)]
+        hook_loop = f.module.parent_of.get(hook_assign.stmt)
+        inside = {id(x) for x in ast.walk(hook_loop)}
+
+        def _uses(n):
+            e = n.expr if getattr(n, "expr", None) is not None else (n.stmt.iter if n.kind == "for" else n.stmt)
+            if e is None or id(n.stmt) in inside or n.stmt is None:
+                return False
+            roots = [n.stmt.iter] if n.kind == "for" else ([n.expr] if n.kind == "test" and n.expr is not None else [n.stmt])
+            if n.kind not in ("for", "test", "stmt"):
+                return False
+            return any(isinstance(x, ast.Name) and x.id == var and isinstance(x.ctx, ast.Load) for r in roots for x in ast.walk(r)) and n.stmt.lineno > hook_loop.lineno
+        loops = [n for n in g.stmt_nodes() if n.stmt is not None and _uses(n)]
         ok_loops = bool(loops) and all(hook_assign.id in rd.get(l.id, {}).get(var, set()) for l in loops)
         ctx.check(ok_arg and ok_loops, f.fq, short(hook_assign.stmt), f"{f.module.relpath}:{hook_assign.lineno}", f"{f.name}: hooks applied to `{var}` before the render loop(s) ({len(loops)})",
                   f"{f.name}(): the render loop does not consume the hook-processed `{var}` (hooks applied after rendering, or to a different list)")
 
 
-RULES = [r10_1, r10_2, r10_3, r10_4]
+def r10_5(ctx):
+    ctx.rule("R10.5", "stop() is idempotent: every statement of Live.stop / Progress.stop that writes to the terminal or undoes start() (any self.console.* call, self.refresh(), _disable_redirect_io(), the transient restore_cursor) is reachable only when `_started` was true on entry - a second stop() (explicit stop() followed by __exit__) emits nothing, so no printed line is erased by a repeated restore_cursor")
+    n_sites = 0
+    for spec in ("live:Live.stop", "progress:Progress.stop"):
+        f = ctx.repo.fn(spec)
+        g = cfgmod.build(f.node)
+        flips = [n for n in g.stmt_nodes() if n.kind == "stmt" and isinstance(n.stmt, ast.Assign) and norm(n.stmt.targets[0]) == "self._started" and norm(n.stmt.value) == "False"]
+        if not flips:
+            raise AnchorVanished(f"{spec}: `_started = False` store not found")
+
+        def effect(st):
+            for c in ast.walk(st):
+                if isinstance(c, ast.Call):
+                    fn = norm(c.func)
+                    if fn.startswith("self.console.") and fn not in ("self.console.is_terminal",) or fn in ("self.refresh", "self._disable_redirect_io") or fn.endswith(".restore_cursor") or fn.endswith(".position_cursor"):
+                        return fn
+            return None
+        seen_stmts = set()
+        for n in g.stmt_nodes():
+            if n.kind != "stmt" or n.stmt is None or id(n.stmt) in seen_stmts or n.id not in g.reachable:
+                continue
+            eff = effect(n.stmt)
+            if eff is None:
+                continue
+            facts = g.branch_facts(n.id)
+            ok = any((norm(t) in ("not self._started",) and v is False) or (norm(t) == "self._started" and v is True) for t, v in facts)
+            if ok:
+                seen_stmts.add(id(n.stmt))
+            n_sites += 1
+            ctx.check(ok, f.fq, short(n.stmt), f"{f.module.relpath}:{n.stmt.lineno}", f"`{eff}(...)` runs only when the display was started",
+                      f"`{short(n.stmt)}` in {f.qualname} is reachable when `_started` is already False: a second stop() (e.g. stop() inside the with-block, then __exit__) emits it again - for a transient display restore_cursor erases that many printed lines")
+    ctx.floor(n_sites, 8, "terminal-effect statements in Live.stop / Progress.stop")
+
+
+def r10_6(ctx):
+    ctx.rule("R10.6", "print()/log() render before they write: every call of self.render in Console.print / Console.log is forced eagerly (argument of list.extend / list() / a list comprehension) into a local list, and only that list (or a lazy view over it such as split_and_crop_lines) reaches self._buffer - so a renderable that raises leaves nothing of the half-rendered print (erase codes, earlier renderables) in the buffer, and the live frame's stored shape stays in step with the screen")
+    n_sites = 0
+    for spec in ("console:Console.print", "console:Console.log"):
+        f = ctx.repo.fn(spec)
+        m = f.module
+        aliases = alias_map(f.node)
+        # local list variables: assigned a list display / list() / list comprehension only
+        list_vars = set()
+        other = set()
+        for x in walk_local(f.node):
+            tgt = val = None
+            if isinstance(x, ast.Assign) and len(x.targets) == 1 and isinstance(x.targets[0], ast.Name):
+                tgt, val = x.targets[0].id, x.value
+            elif isinstance(x, ast.AnnAssign) and isinstance(x.target, ast.Name) and x.value is not None:
+                tgt, val = x.target.id, x.value
+            if tgt is None:
+                continue
+            if isinstance(val, (ast.List, ast.ListComp)) or (isinstance(val, ast.Call) and norm(val.func) in ("list", "sorted")):
+                list_vars.add(tgt)
+            else:
+                other.add(tgt)
+        list_vars -= other
+
+        def eager_consumer(c):
+            if isinstance(c, ast.ListComp):
+                return True
+            if isinstance(c, ast.Call):
+                fn = norm(expand_alias(c.func, aliases))
+                if fn in ("list", "sorted", "tuple"):
+                    return True
+                if "." in fn:
+                    recv, meth = fn.rsplit(".", 1)
+                    if meth in ("extend", "append") and recv in list_vars:
+                        return True
+            return False
+
+        renders = [c for c in walk_local(f.node) if isinstance(c, ast.Call) and norm(expand_alias(c.func, aliases)) == "self.render"]
+        if not renders:
+            raise AnchorVanished(f"{spec}: no self.render(...) call found")
+        for c in renders:
+            cur = m.parent_of.get(c)
+            forced = False
+            while cur is not None and not isinstance(cur, ast.stmt):
+                if eager_consumer(cur):
+                    forced = True
+                    break
+                cur = m.parent_of.get(cur)
+            n_sites += 1
+            ctx.check(forced, f.fq, short(c), f"{m.relpath}:{c.lineno}", "render output forced into a local list before anything is written",
+                      f"{f.name}(): `{short(c)}` is not consumed eagerly into a local list (it sits in a generator / chain / lazily applied wrapper): rendering now happens while the output buffer is being filled, so a renderable that raises leaves the eraser and earlier output in the buffer and the live frame's stored shape goes stale")
+        # what reaches self._buffer
+        for c in walk_local(f.node):
+            if isinstance(c, ast.Call) and norm(expand_alias(c.func, aliases)) in ("self._buffer.extend", "self._buffer.append") and c.args:
+                a = c.args[0]
+                src_names = {x.id for x in ast.walk(a) if isinstance(x, ast.Name)}
+                # loop variable of `for line in split_and_crop_lines(<list>, ...)`
+                ok = False
+                if isinstance(a, ast.Name) and a.id in list_vars:
+                    ok = True
+                elif isinstance(a, ast.Name):
+                    for lp in walk_local(f.node):
+                        if isinstance(lp, ast.For) and isinstance(lp.target, ast.Name) and lp.target.id == a.id and isinstance(lp.iter, ast.Call) and lp.iter.args and isinstance(lp.iter.args[0], ast.Name) and lp.iter.args[0].id in list_vars:
+                            ok = True
+                n_sites += 1
+                ctx.check(ok, f.fq, short(c), f"{m.relpath}:{c.lineno}", "the buffer receives the already rendered list (or lines cut from it)",
+                          f"{f.name}(): `{short(c)}` feeds self._buffer from `{norm(a)}`, which is not the fully rendered local list: output can reach the buffer before rendering has finished")
+    ctx.floor(n_sites, 4, "render / buffer-write sites in Console.print and Console.log")
+
+
+RULES = [r10_1, r10_2, r10_3, r10_4, r10_5, r10_6]
 
 
 def _xcheck(ctx):
